@@ -5,6 +5,9 @@ from riolib.sym import Sym, for_loops, path_assignment, completions, eval_bool
 from riolib import types as T
 from . import layers as LY
 
+THOROUGH_CONFIGS = ['dot', 'router']
+
+
 COVER_EXC = {}
 
 
